@@ -102,10 +102,13 @@ def _run_chunk(args):
     eng = _ENGINE
     res = []
     for n, idx in enumerate(indices):
-        seed = _rng.run_seed(verif_seed, eng.NAME, idx)
+        J = getattr(eng, 'SLICES', 1)     # one workload's enumerated fault family may be spread over J runs
+        seed = _rng.run_seed(verif_seed, eng.NAME, idx // J)
         faulthandler.dump_traceback_later(per_run_timeout, exit=True)
         try:
             case = eng.generate(seed, tier)
+            if J > 1:
+                case['slice'] = [idx % J, J]
             case.setdefault('run_seed', seed)
             case.setdefault('property', prop)
             case.setdefault('engine', eng.NAME)
@@ -347,6 +350,8 @@ def run_check(prop, tier, verif_seed, procs=None, out_evidence=True, max_runs=No
     for gi, (key, items) in enumerate(new_groups[:4]):
         r, v = min(items, key=lambda rv: len(json.dumps(rv[0]['case'])))
         case = r['case']
+        if hasattr(eng, 'narrow'):      # make the enumerated fault explicit before minimising
+            case = eng.narrow(case, v)
         mcase, used = minimise_case(eng, case, v, seconds=plan.get('min_s', 45))
         out = eng.execute(copy.deepcopy(mcase))
         mv = [x for x in out['violations'] if x['class'] == v['class'] and x['property'] == v['property'] and x.get('signature') == v.get('signature')]
